@@ -304,6 +304,16 @@ fn remove_anonymous_from_statement(
             Ok((Statement::Block { meta, stmts: new_stmts }, declarations))
         }
         Statement::Substitution { meta, var, op, rhe, access } => {
+            for access in &access {
+                if let Access::ArrayAccess(index) = access {
+                    if index.contains_anonymous_component(None) {
+                        return Err(AnonymousComponentError::boxed_report(
+                            index.meta(),
+                            "An anonymous component cannot be used to access an array.",
+                        ));
+                    }
+                }
+            }
             let (mut stmts, declarations, new_rhe) =
                 remove_anonymous_from_expression(templates, file_library, rhe, var_access)?;
             let subs =
